@@ -168,9 +168,9 @@ Qed.
 
 (* angle extraction: the returned (longitude, latitude) are coordinates of the direction of the
    rotated vector *)
-Lemma euler_extract r a b : 0 < norm2 (euler_xyz r a b) -> represents_deg (euler_R r a b) (euler_vec r a b).
+Lemma euler_gen_extract r a b : 0 < norm2 (euler_xyz r a b) -> represents_deg (euler_R_gen true r a b) (euler_vec r a b).
 Proof.
-  intro H. unfold represents_deg, euler_R; simpl fst; simpl snd. unfold unit_deg.
+  intro H. unfold represents_deg, euler_R_gen, lat_by; simpl fst; simpl snd. unfold unit_deg.
   rewrite !D2R_R2D.
   replace (lon_of (euler_xyz r a b) + r_psi r + fourpi) with (lon_of (euler_xyz r a b) + r_psi r + fourpi) by reflexivity.
   rewrite Rmod_twopi_unit. rewrite <- Rz_unit. rewrite (lonlat_extract _ H).
@@ -178,10 +178,17 @@ Proof.
 Qed.
 
 (* the range of the returned angles *)
-Lemma euler_range r a b :
-  0 <= fst (euler_R r a b) < 360 /\ -90 <= snd (euler_R r a b) <= 90.
+(* the flag regenerated from the source says that euler computes the latitude by arctan2 *)
+Lemma euler_R_is r a b : euler_R r a b = euler_R_gen true r a b.
+Proof. reflexivity. Qed.
+
+Lemma euler_extract r a b : 0 < norm2 (euler_xyz r a b) -> represents_deg (euler_R r a b) (euler_vec r a b).
+Proof. rewrite euler_R_is. apply euler_gen_extract. Qed.
+
+Lemma euler_gen_range r a b :
+  0 <= fst (euler_R_gen true r a b) < 360 /\ -90 <= snd (euler_R_gen true r a b) <= 90.
 Proof.
-  unfold euler_R; simpl fst; simpl snd. pose proof PI_RGT_0 as Hpi. pose proof D2R_pos as Hd.
+  unfold euler_R_gen, lat_by; simpl fst; simpl snd. pose proof PI_RGT_0 as Hpi. pose proof D2R_pos as Hd.
   split.
   - destruct (Rmod_spec (lon_of (euler_xyz r a b) + r_psi r + fourpi) twopi) as [_ Hm]; [unfold twopi; lra|].
     unfold R2D, D2R, twopi in *. set (m := Rmod _ _) in *.
@@ -198,7 +205,15 @@ Proof.
     + apply Rmult_le_reg_r with PI; [lra|]. unfold Rdiv. rewrite Rmult_assoc, Rinv_l by lra. lra.
 Qed.
 
+Lemma euler_range r a b :
+  0 <= fst (euler_R r a b) < 360 /\ -90 <= snd (euler_R r a b) <= 90.
+Proof. rewrite euler_R_is. apply euler_gen_range. Qed.
+
 (* ================================================================== rotate *)
+Lemma rotate_R_is phi theta psi ra dec :
+  rotate_R phi theta psi ra dec = euler_R_gen true (rotate_row phi theta psi) ra dec.
+Proof. reflexivity. Qed.
+
 Lemma rotate_row_sc phi theta psi :
   r_st (rotate_row phi theta psi) * r_st (rotate_row phi theta psi)
   + r_ct (rotate_row phi theta psi) * r_ct (rotate_row phi theta psi) = 1.
@@ -248,7 +263,8 @@ Proof.
   assert (0 <= nd < PI) as Hnd by (unfold nd; pose proof node_bounds; pose proof PI_RGT_0; destruct stomp; lra).
   pose proof (atan2_bound (vy v) (vx v)) as Hl. fold (lon_of v) in Hl.
   pose proof PI_RGT_0 as Hpi.
-  unfold xyz2eq_R. fold nd. destruct deg; simpl fst; simpl snd; unfold ang_in.
+  unfold xyz2eq_R. change xyz2eq_lat_atan2 with true. change xyz2eq_rad_wrap_2pi with true.
+  unfold xyz2eq_R_gen, lat_by. fold nd. destruct deg; simpl fst; simpl snd; unfold ang_in.
   - rewrite D2R_R2D. rewrite xyz2eq_atbound_val.
     destruct (atbound_spec atb_fuel ((lon_of v + nd) * R2D) 0) as [[k E] _].
     { pose proof (deg_of_rad_bounds (lon_of v + nd) (-180) 360). unfold atb_fuel. simpl INR. lra. }
@@ -274,7 +290,7 @@ Qed.
 Lemma xyz2eq_range stomp v :
   0 <= fst (xyz2eq_R true stomp v) <= 360 /\ -90 <= snd (xyz2eq_R true stomp v) <= 90.
 Proof.
-  unfold xyz2eq_R; simpl fst; simpl snd.
+  unfold xyz2eq_R. change xyz2eq_lat_atan2 with true. unfold xyz2eq_R_gen, lat_by; simpl fst; simpl snd.
   set (nd := if stomp then sdss_node else 0).
   assert (0 <= nd < PI) as Hnd by (unfold nd; pose proof node_bounds; pose proof PI_RGT_0; destruct stomp; lra).
   pose proof (atan2_bound (vy v) (vx v)) as Hl. fold (lon_of v) in Hl. pose proof PI_RGT_0 as Hpi.
@@ -329,7 +345,8 @@ Lemma eq2sdss_correct ra dec :
     sdss_unit (cl * D2R) (ce * D2R) = Rz (- sdss_node) (unit_deg ra dec) /\
     -90 <= cl <= 90 /\ -180 <= ce <= 180.
 Proof.
-  intros Hra Hdec. unfold eq2sdss_R. rewrite Hra, Hdec; simpl negb; cbv iota.
+  intros Hra Hdec. unfold eq2sdss_R. change eq2sdss_lat_atan2 with true. unfold eq2sdss_R_gen.
+  rewrite Hra, Hdec; simpl negb; cbv iota.
   eexists; eexists; split; [reflexivity|].
   rewrite <- eq2sdss_xyz_unit.
   assert (is_unit (eq2sdss_xyz ra dec)) as Hu by (rewrite eq2sdss_xyz_unit; apply is_unit_Rz, unit_deg_unit).
@@ -405,7 +422,8 @@ Lemma sdss2eq_correct cl ce :
     unit_deg ra dec = Rz sdss_node (sdss_unit (cl * D2R) (ce * D2R)) /\
     0 <= ra <= 360 /\ -90 <= dec <= 90.
 Proof.
-  intros Hcl Hce. unfold sdss2eq_R. rewrite Hcl, Hce; simpl negb; cbv iota.
+  intros Hcl Hce. unfold sdss2eq_R. change sdss2eq_lat_atan2 with true. unfold sdss2eq_R_gen, lat_by.
+  rewrite Hcl, Hce; simpl negb; cbv iota.
   set (v := sdss_unit (cl * D2R) (ce * D2R)).
   pose proof (sdss_unit_unit (cl * D2R) (ce * D2R)) as Hu. fold v in Hu.
   assert (0 < norm2 v) as Hv by (rewrite Hu; lra).
@@ -463,7 +481,7 @@ Qed.
 
 Lemma sdss_rejects ra dec : (ra < 0 \/ 360 < ra \/ dec < -90 \/ 90 < dec) -> eq2sdss_R ra dec = Err EValue.
 Proof.
-  intro H. destruct sdss_ranges_eq as [E1 [E2 _]]. unfold eq2sdss_R, in_range. rewrite E1, E2; simpl fst; simpl snd.
+  intro H. destruct sdss_ranges_eq as [E1 [E2 _]]. unfold eq2sdss_R, eq2sdss_R_gen, in_range. rewrite E1, E2; simpl fst; simpl snd.
   destruct (Rlt_dec ra 0); [reflexivity|]. destruct (Rlt_dec 360 ra); [reflexivity|]. simpl.
   destruct (Rlt_dec dec (-90)); [reflexivity|]. destruct (Rlt_dec 90 dec); [reflexivity|]. lra.
 Qed.
@@ -501,7 +519,10 @@ Proof.
       unfold shift_pos_cmp, qcmp, shift_pos_thr, shift_pos_period.
       destruct (Qle_bool 0 (lon - a)) eqn:Hc; simpl negb; cbv iota.
       * apply Qle_bool_iff in Hc. split; [exists k; Lqa.lra | Lqa.lra].
-      * apply qle_bool_false in Hc. split; [exists (k + 1)%Z; rewrite inject_Z_plus; change (inject_Z 1) with 1; Lqa.lra | Lqa.lra].
+      * apply qle_bool_false in Hc. unfold shift_pos_rewrap, qcmp.
+        destruct (Qle_bool 360 (lon - a + 360)) eqn:Hr.
+        { exfalso. apply Qle_bool_iff in Hr. Lqa.lra. }
+        split; [exists (k + 1)%Z; rewrite inject_Z_plus; change (inject_Z 1) with 1; Lqa.lra | Lqa.lra].
     + apply qle_bool_false in Hs. rewrite (Qabs_neg s (Qlt_le_weak _ _ Hs)) in E.
       unfold shift_neg_cmp, qcmp, shift_neg_thr, shift_neg_period.
       destruct (Qle_bool 360 (lon + a)) eqn:Hc; cbv iota.
